@@ -534,6 +534,10 @@ class CompositeFrontend(ConstrainedFrontend):
                 merged._store_child(merged_noncommon)
 
         merged.constraints = list(itertools.chain.from_iterable(a.constraints for a in merged._solver_list))
+        if merged._unsat:
+            # the concrete False that made the merged solver unsatisfiable (e.g. a merge condition that is False) lives in
+            # no child
+            merged.constraints.append(false())
         return True, merged
 
     def split(self):
